@@ -12,7 +12,7 @@ def main():
     bad = 0
     for name in sorted(os.listdir(os.path.join(HERE, "seeded"))):
         d = os.path.join(HERE, "seeded", name)
-        if not os.path.isdir(d) or (sel and not any(s in name for s in sel)):
+        if not os.path.isdir(d) or name.startswith("_") or (sel and not any(s in name for s in sel)):
             continue
         meta = json.load(open(os.path.join(d, "meta.json")))
         own = meta["breaks_property"]
